@@ -137,6 +137,11 @@ func run(c Case) (res vh.Result) {
 		return fail("core-crash", "the core died: %s", tr.Crash)
 	}
 	if !tr.Created {
+		if strings.Contains(tr.CreateErr, "deployment timed out") {
+			res.Inconclusive = "deployment did not finish (machine under load): " + tr.CreateErr
+			simworld.Discard()
+			return
+		}
 		return fail("creation-failed", "all hooks succeed, yet creation failed: %s", tr.CreateErr)
 	}
 	if len(tr.Viol) > 0 {
